@@ -101,7 +101,7 @@ impl<'a> AnswerCheck<'a> {
     }
 
     /// Enumerates the definitely-TRUE witness tuples for the canonical variables.
-    fn true_witnesses(&self, info: &mut OracleInfo) -> (Vec<u32>, Vec<Vec<Ty>>) {
+    pub fn true_witnesses(&self, info: &mut OracleInfo) -> (Vec<u32>, Vec<Vec<Ty>>) {
         let n = self.peeled.var_creation.len();
         let vars: Vec<u32> = (0..n).map(|i| self.var_of(i)).collect();
         let mut out = vec![];
@@ -141,7 +141,7 @@ impl<'a> AnswerCheck<'a> {
         (vars, out)
     }
 
-    fn pattern(&self, s: &DSubst) -> Option<Vec<Ty>> {
+    pub fn pattern(&self, s: &DSubst) -> Option<Vec<Ty>> {
         let mut v = vec![];
         for a in &s.args {
             match a {
@@ -150,6 +150,64 @@ impl<'a> AnswerCheck<'a> {
             }
         }
         Some(v)
+    }
+
+    /// A ground instance of the answer pattern (binder variables instantiated
+    /// over the bounded universe) that REF evaluates to definitely FALSE.
+    pub fn false_instance(&self, s: &DSubst, pat: &[Ty], info: &mut OracleInfo) -> Option<Vec<Ty>> {
+        let n = self.peeled.var_creation.len();
+        let nb = s.binders.len();
+        if nb > 2 || pat.len() != n {
+            return None;
+        }
+        let vars: Vec<u32> = (0..n).map(|i| self.var_of(i)).collect();
+        let buniv: Vec<Vec<Ty>> = s
+            .binders
+            .iter()
+            .map(|b| {
+                let scope: Vec<Ty> = self
+                    .pa
+                    .skolems
+                    .iter()
+                    .filter(|k| k.max_skolem_universe() as usize <= b.universe)
+                    .cloned()
+                    .collect();
+                self.refm.universe(self.depth.saturating_sub(1).max(1), &scope)
+            })
+            .collect();
+        if buniv.iter().any(|u| u.is_empty()) {
+            return None;
+        }
+        let mut st = Stats::default();
+        let mut idx = vec![0usize; nb];
+        let mut found = None;
+        'outer: loop {
+            let bs: BTreeMap<u32, Ty> = (0..nb)
+                .map(|j| (j as u32, buniv[j][idx[j]].clone()))
+                .collect();
+            let tuple: Vec<Ty> = pat.iter().map(|p| p.subst(&bs)).collect();
+            if tuple.iter().all(|t| t.is_ground()) {
+                info.tuples += 1;
+                if self.eval_tuple(&vars, &tuple, &mut st) == Tri::False {
+                    found = Some(tuple);
+                    break 'outer;
+                }
+            }
+            let mut p = nb;
+            loop {
+                if p == 0 {
+                    break 'outer;
+                }
+                p -= 1;
+                idx[p] += 1;
+                if idx[p] < buniv[p].len() {
+                    break;
+                }
+                idx[p] = 0;
+            }
+        }
+        info.stats.merge(&st);
+        found
     }
 
     pub fn check(&self, sol: &DSol) -> (Vec<Issue>, OracleInfo) {
@@ -229,60 +287,15 @@ impl<'a> AnswerCheck<'a> {
                 }
                 // (i) soundness of Unique: no instance is definitely false
                 if is_unique {
-                    let nb = s.binders.len();
-                    if nb <= 2 {
-                        let vars: Vec<u32> = (0..n).map(|i| self.var_of(i)).collect();
-                        let buniv: Vec<Vec<Ty>> = s
-                            .binders
-                            .iter()
-                            .map(|b| {
-                                let scope: Vec<Ty> = self
-                                    .pa
-                                    .skolems
-                                    .iter()
-                                    .filter(|k| k.max_skolem_universe() as usize <= b.universe)
-                                    .cloned()
-                                    .collect();
-                                self.refm.universe(self.depth.saturating_sub(1).max(1), &scope)
-                            })
-                            .collect();
-                        let mut st = Stats::default();
-                        let mut idx = vec![0usize; nb];
-                        'outer: loop {
-                            let bs: BTreeMap<u32, Ty> = (0..nb)
-                                .map(|j| (j as u32, buniv[j][idx[j]].clone()))
-                                .collect();
-                            if nb == 0 || buniv.iter().all(|u| !u.is_empty()) {
-                                let tuple: Vec<Ty> = pat.iter().map(|p| p.subst(&bs)).collect();
-                                if tuple.iter().all(|t| t.is_ground()) {
-                                    info.tuples += 1;
-                                    if self.eval_tuple(&vars, &tuple, &mut st) == Tri::False {
-                                        issues.push(Issue {
-                                            kind: "unique-has-false-instance".into(),
-                                            site: format!("{}/open/{}", slv, self.class),
-                                            detail: format!(
-                                                "instance {:?} of the unique answer is FALSE",
-                                                tuple.iter().map(ty_str).collect::<Vec<_>>()
-                                            ),
-                                        });
-                                        break 'outer;
-                                    }
-                                }
-                            }
-                            let mut p = nb;
-                            loop {
-                                if p == 0 {
-                                    break 'outer;
-                                }
-                                p -= 1;
-                                idx[p] += 1;
-                                if idx[p] < buniv[p].len() {
-                                    break;
-                                }
-                                idx[p] = 0;
-                            }
-                        }
-                        info.stats.merge(&st);
+                    if let Some(tuple) = self.false_instance(s, &pat, &mut info) {
+                        issues.push(Issue {
+                            kind: "unique-has-false-instance".into(),
+                            site: format!("{}/open/{}", slv, self.class),
+                            detail: format!(
+                                "instance {:?} of the unique answer is FALSE",
+                                tuple.iter().map(ty_str).collect::<Vec<_>>()
+                            ),
+                        });
                     }
                 }
             }
